@@ -363,10 +363,13 @@ def descs_cache(S, full, nofilter=False):
             if not nofilter:
                 # two different short-lived filters in a row (a memo keyed by anything weaker than the callable
                 # itself confuses them)
-                for f in (ALLF, REJ, sel(V=[v]), sel(L=[1])):
+                for f in (ALLF, REJ, sel(V=[v]), sel(L=[1]), REJZ):
                     dsc = desc("nb", (v, 1, 1), f=f)
                     dsc["eph"] = True
                     yield dsc
+                # ... and the unfiltered question once more: whatever the filtered calls put into the memo (the last one
+                # with a callable that is falsy) must not be served for it
+                yield desc("nb", (v, 1, 1))
     if all(qdom(S, v) for v in range(1, n + 1)) and all(0 not in S["ends"][e] for e in range(S["nl"])):
         for s in range(1, n + 1):
             for q in (("bft", "dftr", "dfti") if full else ("bft", "dfti" if s % 2 else "dftr")):
